@@ -154,6 +154,13 @@ func (fr *frame) visitInstr(instr ssa.Instruction) continuation {
 
 	case *ssa.Call:
 		fn, args := fr.prepareCall(&instr.Call)
+		if p.lenient && fr.fn.Synthetic == "package initializer" {
+			// package initialisation runs leniently: an initialiser that needs the
+			// protobuf runtime or other unmodelled machinery is skipped (its
+			// variables stay zero) and the fact is noted
+			fr.env[instr] = fr.lenientCall(instr, fn, args)
+			break
+		}
 		fr.env[instr] = p.call(fr, instr.Pos(), fn, args)
 
 	case *ssa.ChangeInterface:
@@ -193,7 +200,7 @@ func (fr *frame) visitInstr(instr ssa.Instruction) continuation {
 		fr.runDefers()
 
 	case *ssa.Panic:
-		panic(targetPanic{fr.get(instr.X), instr.Pos()})
+		panic(targetPanic{fr.get(instr.X), instr.Pos(), fr.stack()})
 
 	case *ssa.Send:
 		ch := fr.get(instr.Chan).(*schan)
@@ -352,6 +359,28 @@ func (fr *frame) visitInstr(instr ssa.Instruction) continuation {
 	return kNext
 }
 
+func (fr *frame) lenientCall(instr *ssa.Call, fn value, args []value) (res value) {
+	p := fr.p
+	defer func() {
+		if r := recover(); r != nil {
+			switch r.(type) {
+			case targetPanic, unsupported, runtimePanic:
+				p.note(fmt.Sprintf("package initialiser skipped: %v", instr.Call.Value))
+				if instr.Type() != nil {
+					if tup, ok := instr.Type().(*types.Tuple); ok && tup.Len() == 0 {
+						res = nil
+					} else {
+						res = p.zero(instr.Type())
+					}
+				}
+			default:
+				panic(r)
+			}
+		}
+	}()
+	return p.call(fr, instr.Pos(), fn, args)
+}
+
 // index checks 0 <= idx < n (forking / reporting the panic) and returns a
 // concrete index.
 func (fr *frame) index(idx *Term, signed bool, n int) int {
@@ -498,7 +527,7 @@ func (fr *frame) runFrame() {
 			panic(r)
 		}
 		if rp, ok := r.(runtimePanic); ok {
-			r = targetPanic{fr.p.runtimeErrorValue(rp.msg), fr.curPos()}
+			r = targetPanic{fr.p.runtimeErrorValue(rp.msg), fr.curPos(), fr.stack()}
 		}
 		if _, ok := r.(targetPanic); !ok {
 			// interpreter bug: annotate and convert to unsupported so that the
@@ -527,6 +556,17 @@ func (fr *frame) runFrame() {
 			}
 		}
 	}
+}
+
+func (fr *frame) stack() []string {
+	var r []string
+	for c := fr; c != nil && c.fn != nil; c = c.caller {
+		r = append(r, fmt.Sprintf("%v @%s", c.fn, fr.p.posStr(c.curPos())))
+		if len(r) > 30 {
+			break
+		}
+	}
+	return r
 }
 
 func (fr *frame) curPos() token.Pos {
